@@ -226,15 +226,17 @@ func describe(v interface{}) string {
 
 // ---- no-op logger -----------------------------------------------------------------------------
 
+// nopLogger formats its arguments like the default logger does (a value that cannot be formatted is a
+// defect the default configuration would meet) but writes nothing and reads no clock.
 type nopLogger struct{}
 
-func (nopLogger) Info(args ...interface{})                  {}
-func (nopLogger) Warn(args ...interface{})                  {}
-func (nopLogger) Error(args ...interface{})                 {}
-func (nopLogger) Debug(args ...interface{})                 {}
-func (nopLogger) Infof(format string, args ...interface{})  {}
-func (nopLogger) Warnf(format string, args ...interface{})  {}
-func (nopLogger) Errorf(format string, args ...interface{}) {}
-func (nopLogger) Debugf(format string, args ...interface{}) {}
-func (nopLogger) Printf(format string, args ...interface{}) {}
-func (nopLogger) Println(args ...interface{})               {}
+func (nopLogger) Info(args ...interface{})                  { _ = fmt.Sprint(args...) }
+func (nopLogger) Warn(args ...interface{})                  { _ = fmt.Sprint(args...) }
+func (nopLogger) Error(args ...interface{})                 { _ = fmt.Sprint(args...) }
+func (nopLogger) Debug(args ...interface{})                 { _ = fmt.Sprint(args...) }
+func (nopLogger) Infof(format string, args ...interface{})  { _ = fmt.Sprintf(format, args...) }
+func (nopLogger) Warnf(format string, args ...interface{})  { _ = fmt.Sprintf(format, args...) }
+func (nopLogger) Errorf(format string, args ...interface{}) { _ = fmt.Sprintf(format, args...) }
+func (nopLogger) Debugf(format string, args ...interface{}) { _ = fmt.Sprintf(format, args...) }
+func (nopLogger) Printf(format string, args ...interface{}) { _ = fmt.Sprintf(format, args...) }
+func (nopLogger) Println(args ...interface{})               { _ = fmt.Sprint(args...) }
